@@ -378,3 +378,17 @@ class FindingHttpShardFetch(Lemma):
                 return got != b"payload", f"HttpShard.fetch_cmc_chunk returned {got!r}"
             except AssertionError:
                 return True, "HttpShard.fetch_cmc_chunk(0) on a served shard holding chunk 0: AssertionError (minishard_dict is never filled; populate_minishard_dict fills ro_minishard_dict)"
+
+
+# ---- native replay adapters (scenario sweeps on the real code, contracts/_native.py)
+
+from . import _native  # noqa: E402
+
+
+def _use(fn):
+    return lambda self, model, cfg, ob_name: fn()
+
+
+for _cls in (HttpAccessorInit, HttpFetchFile, HttpFileExists, HttpFetchChunk):
+    _cls.replay = _use(_native.http_sweep)
+GetAccessorForUrl.replay = _use(_native.dispatch_sweep)
